@@ -156,3 +156,53 @@ pub assume_specification<T, E, F: FnOnce(E) -> T>[ Result::<T, E>::unwrap_or_els
         res is Ok ==> r == res->Ok_0,
         res is Err ==> call_ensures(op, (res->Err_0,), r);
 }
+
+verus! {
+// ---------------------------------------------------------------- floor(a*b/c), kept opaque
+/// `floor(a * b / c)`.  Closed so that the nonlinear term never reaches the solver unasked;
+/// everything known about it comes from the lemmas below (all proved, no axioms).
+pub closed spec fn muldiv(a: nat, b: nat, c: nat) -> nat { (a * b) / c }
+
+pub proof fn lemma_muldiv_def(a: nat, b: nat, c: nat)
+    ensures muldiv(a, b, c) == (a * b) / c
+{}
+/// c > 0  ==>  muldiv*c <= a*b < (muldiv+1)*c
+pub proof fn lemma_muldiv_floor(a: nat, b: nat, c: nat)
+    requires c > 0,
+    ensures muldiv(a, b, c) * c <= a * b, a * b < (muldiv(a, b, c) + 1) * c,
+{
+    let p = a * b;
+    assert((p / c) * c <= p && p < (p / c + 1) * c) by (nonlinear_arith) requires c > 0;
+}
+/// b <= c  ==>  muldiv(a,b,c) <= a
+pub proof fn lemma_muldiv_le(a: nat, b: nat, c: nat)
+    requires c > 0, b <= c,
+    ensures muldiv(a, b, c) <= a,
+{
+    assert(a * b <= a * c) by (nonlinear_arith) requires b <= c;
+    assert((a * b) / c <= a) by (nonlinear_arith) requires a * b <= a * c, c > 0;
+}
+/// a <= k*c  ==>  muldiv(a,b,c) <= k*b
+pub proof fn lemma_muldiv_bound(a: nat, b: nat, c: nat, k: nat)
+    requires c > 0, a <= k * c,
+    ensures muldiv(a, b, c) <= k * b,
+{
+    assert(a * b <= (k * b) * c) by (nonlinear_arith) requires a <= k * c;
+    assert((a * b) / c <= k * b) by (nonlinear_arith) requires a * b <= (k * b) * c, c > 0;
+}
+pub proof fn lemma_muldiv_zero(a: nat, b: nat, c: nat)
+    requires c > 0, a == 0 || b == 0,
+    ensures muldiv(a, b, c) == 0,
+{
+    assert(a * b == 0) by (nonlinear_arith) requires a == 0 || b == 0;
+}
+/// muldiv is monotone in its first argument
+pub proof fn lemma_muldiv_mono(a1: nat, a2: nat, b: nat, c: nat)
+    requires c > 0, a1 <= a2,
+    ensures muldiv(a1, b, c) <= muldiv(a2, b, c),
+{
+    assert(a1 * b <= a2 * b) by (nonlinear_arith) requires a1 <= a2;
+    let p = a1 * b; let q = a2 * b;
+    assert(p / c <= q / c) by (nonlinear_arith) requires p <= q, c > 0;
+}
+}
